@@ -53,6 +53,17 @@ type Scenario struct {
 	desc          string
 }
 
+func (s *Scenario) tmplOf(taskID string) string {
+	for _, t := range s.tasks {
+		if t.id == taskID {
+			if p, ok := t.params["p1"].(string); ok {
+				return p
+			}
+		}
+	}
+	return ""
+}
+
 func (s *Scenario) script(taskID, ph string, att int) phaseScript {
 	l := s.scripts[taskID+"/"+ph]
 	if att < len(l) {
@@ -214,6 +225,26 @@ func genScenario(rng *Rng, kind string) *Scenario {
 		s.faultNth = 1 + rng.Intn(8)
 		s.faultMatch = "PatchTaskIns"
 		s.faultMode = "fail"
+	case "tmpl":
+		// execution-time templates: vars and shared data; k0 is written by t1's main action only
+		for i := range s.tasks {
+			s.tasks[i].action = "AP"
+			p1 := "{{.vars.v.Value}}|"
+			if i > 0 && rng.Chance(2, 3) {
+				p1 += "{{.shareData.k0}}"
+			}
+			s.tasks[i].params = map[string]interface{}{"p1": p1, "p2": 5, "p4": []interface{}{"{{.vars.w.Value}}", "x"}}
+			for _, ph := range []string{"before", "run", "after", "retry"} {
+				l := s.scripts[s.tasks[i].id+"/"+ph]
+				for a := range l {
+					l[a].ops = nil
+				}
+			}
+		}
+		l := s.scripts["t1/run"]
+		for a := range l {
+			l[a].ops = []actOp{{kind: 0, k: "k0", v: "sv"}}
+		}
 	case "leftbehind":
 		s.leftBehind = true
 	case "wdrace":
